@@ -27,7 +27,7 @@ import dataclasses
 import functools
 import itertools
 import logging
-from collections.abc import Collection, Container, Iterable
+from collections.abc import Callable, Collection, Container, Iterable
 from typing import Any, NamedTuple, Protocol
 
 from kopf._cogs.aiokits import aiotasks, aiotoggles
@@ -76,6 +76,20 @@ class Ensemble:
     peering_tasks: dict[EnsembleKey, aiotasks.Task] = dataclasses.field(default_factory=dict)
     pinging_tasks: dict[EnsembleKey, aiotasks.Task] = dataclasses.field(default_factory=dict)
 
+    # The tasks that have failed on their own. They are escalated by the orchestrator,
+    # which is woken up by the callback (absent in tests), to stop the whole operator.
+    failed_tasks: list[aiotasks.Task] = dataclasses.field(default_factory=list)
+    wake_up: Callable[[], None] | None = None
+
+    def escalating(self, task: aiotasks.Task) -> aiotasks.Task:
+        def done(task: aiotasks.Task) -> None:
+            if not task.cancelled() and task.exception() is not None:
+                self.failed_tasks.append(task)
+                if self.wake_up is not None:
+                    self.wake_up()
+        task.add_done_callback(done)
+        return task
+
     def get_keys(self) -> Collection[EnsembleKey]:
         return (frozenset(self.watcher_tasks) |
                 frozenset(self.peering_tasks) |
@@ -110,11 +124,23 @@ async def orchestrator(
         insights: references.Insights,
         operator_paused: aiotoggles.ToggleSet,
 ) -> None:
+    wakeups: set[aiotasks.Task] = set()
+
+    async def notify() -> None:
+        async with insights.revised:
+            insights.revised.notify_all()
+
+    def wake_up() -> None:
+        task = asyncio.create_task(notify())
+        wakeups.add(task)
+        task.add_done_callback(wakeups.discard)
+
     peering_missing = await operator_paused.make_toggle(name='peering CRD is missing')
     ensemble = Ensemble(
         peering_missing=peering_missing,
         operator_paused=operator_paused,
         operator_indexed=aiotoggles.ToggleSet(all),
+        wake_up=wake_up,
     )
     try:
         async with insights.revised:
@@ -127,7 +153,15 @@ async def orchestrator(
                     identity=identity,
                     ensemble=ensemble,
                 )
-    except asyncio.CancelledError:
+
+                # Fail fast: a failed watcher or peering task of a still served resource/namespace
+                # stops the whole operator; otherwise, it would keep running half-blind.
+                served_tasks = ensemble.get_tasks(ensemble.get_keys())
+                for task in ensemble.failed_tasks:
+                    if task in served_tasks:
+                        raise task.exception() or RuntimeError(f"{task!r} has failed.")
+                ensemble.failed_tasks.clear()
+    except BaseException:
         tasks = ensemble.get_tasks(ensemble.get_keys())
         await aiotasks.stop(tasks, title="streaming", logger=logger, interval=10)
         raise
@@ -202,14 +236,14 @@ async def spawn_missing_peerings(
             is_preactivated = settings.peering.mandatory
             conflicts_found = await ensemble.operator_paused.make_toggle(is_preactivated, name=what)
             ensemble.conflicts_found[dkey] = conflicts_found
-            ensemble.pinging_tasks[dkey] = aiotasks.create_guarded_task(
+            ensemble.pinging_tasks[dkey] = ensemble.escalating(aiotasks.create_guarded_task(
                 name=f"peering keep-alive for {what}", logger=logger, cancellable=True,
                 coro=peering.keepalive(
                     namespace=namespace,
                     resource=resource,
                     settings=settings,
-                    identity=identity))
-            ensemble.peering_tasks[dkey] = aiotasks.create_guarded_task(
+                    identity=identity)))
+            ensemble.peering_tasks[dkey] = ensemble.escalating(aiotasks.create_guarded_task(
                 name=f"peering observer for {what}", logger=logger, cancellable=True,
                 coro=queueing.watcher(
                     settings=settings,
@@ -220,7 +254,7 @@ async def spawn_missing_peerings(
                                                 namespace=namespace,
                                                 resource=resource,
                                                 settings=settings,
-                                                identity=identity)))
+                                                identity=identity))))
 
     # Ensure that all guarded tasks got control for a moment to enter the guard.
     await asyncio.sleep(0)
@@ -249,7 +283,7 @@ async def spawn_missing_watchers(
             resource_indexed: aiotoggles.Toggle | None = None
             if resource in indexed_resources:
                 resource_indexed = await ensemble.operator_indexed.make_toggle(name=what)
-            ensemble.watcher_tasks[dkey] = aiotasks.create_guarded_task(
+            ensemble.watcher_tasks[dkey] = ensemble.escalating(aiotasks.create_guarded_task(
                 name=f"watcher for {what}", logger=logger, cancellable=True,
                 coro=queueing.watcher(
                     operator_paused=ensemble.operator_paused,
@@ -258,7 +292,7 @@ async def spawn_missing_watchers(
                     settings=settings,
                     resource=resource,
                     namespace=namespace,
-                    processor=functools.partial(processor, resource=resource)))
+                    processor=functools.partial(processor, resource=resource))))
 
     # Unblock globally, let the specialised per-resource-kind blockers hold the readiness.
     await ensemble.operator_indexed.drop_toggle(operator_blocked)
